@@ -259,6 +259,8 @@ func defectClasses(log string) []string {
 			cls = "optional_int64_number"
 		case (strings.Contains(msg, "MarshalJSON") || strings.Contains(msg, "UnmarshalJSON")) && (strings.Contains(msg, "already declared") || strings.Contains(msg, "redeclared")):
 			cls = "two_marshaljson_methods"
+		case strings.HasSuffix(file, "_unwrap") && strings.Contains(msg, "cannot use items (variable of type []interface{}) as map["):
+			cls = "map_value_unwrap_of_map_field"
 		case strings.Contains(msg, "other declaration of"):
 			continue
 		case strings.HasSuffix(file, "_client") && strings.Contains(msg, "redeclared") && strings.HasPrefix(msg, "With"):
